@@ -45,13 +45,6 @@ def pad2 (n : Nat) : Str := [dch (n / 10), dch n]
 /-- `f'{n:04d}'` for `n < 10000` -/
 def pad4 (n : Nat) : Str := [dch (n / 1000), dch (n / 100), dch (n / 10), dch n]
 
-def natDigitsAux : Nat → Nat → Str → Str
-  | 0, _, acc => acc
-  | fuel + 1, n, acc => if n < 10 then dch n :: acc else natDigitsAux fuel (n / 10) (dch n :: acc)
-
-/-- `str(n)` / `f'{n:d}'`: decimal digits without padding -/
-def natDigits (n : Nat) : Str := natDigitsAux (n + 1) n []
-
 /-- `int(digits)` for a string of ASCII digits -/
 def digitsVal (ds : Str) : Nat := ds.foldl (fun a c => 10 * a + dval c) 0
 
@@ -68,13 +61,6 @@ def lower (s : Str) : Str := s.map Char.toLower
 `m` is the offset in minutes east of UTC. -/
 def formatOffset (m : Int) : Str :=
   (if m < 0 then '-' else '+') :: (pad2 (m.natAbs / 60) ++ ':' :: pad2 (m.natAbs % 60))
-
-/-- What the unrepaired `format_time_units_for_ems` builds:
-`h, mm = divmod(m, 60); f'{h:+d}:{mm:02d}'` — floor division, unpadded hours. -/
-def formatOffsetCurrent (m : Int) : Str :=
-  let h : Int := m.fdiv 60
-  let mm : Int := m.fmod 60
-  (if h < 0 then '-' else '+') :: (natDigits h.natAbs ++ ':' :: pad2 mm.toNat)
 
 /-- `[0-9]{2}` at the head of the string -/
 def two (s : Str) : Option (Nat × Str) :=
@@ -385,10 +371,6 @@ def formatTimeUnits (c : CalOps) (calendar units : Str) : Option Str :=
 for every lawful calendar in `Props/C17.lean`) -/
 def formatTimeUnitsChecked : CalOps → Str → Str → Option Str := formatWith pad4 formatOffset
 
-/-- **Quirk model** (finding F5, until the repair lands): the unrepaired formatter —
-`strftime('%Y')` does not pad years below 1000 on glibc, hours unpadded, floor division. -/
-def formatTimeUnitsCurrent : CalOps → Str → Str → Option Str := formatWith natDigits formatOffsetCurrent
-
 /-! ## decoding a stored number -/
 
 /-- length of one unit in microseconds (`cftime` unit names) -/
@@ -543,7 +525,7 @@ def timeCoordinateGeneric (vars : List TVar) : Option String :=
     | some u => hasSince u && v.isDatetime
     | none => false).map (·.name)
 
-/-- SHOC overrides (what the property needs): the *variable* with the fixed name (`t` for SHOC
+/-- SHOC overrides: the *variable* with the fixed name (`t` for SHOC
 standard, `time` for SHOC simple), whatever it holds -/
 def timeCoordinateNamed (name : String) (vars : List TVar) : Option String :=
   (vars.find? fun v => v.name == name).map (·.name)
@@ -558,17 +540,6 @@ def shocTimeName : ConvKind → String
 def timeCoordinate : ConvKind → List TVar → Option String
   | .generic, vs => timeCoordinateGeneric vs
   | k, vs => timeCoordinateNamed (shocTimeName k) vs
-
-/-- **Quirk model** of the SHOC overrides as they stand: `self.dataset[name]` also succeeds when
-`name` is only a *dimension* (xarray then makes up an index coordinate), so a name that is not a
-variable can come back. -/
-def timeCoordinateCurrent (k : ConvKind) (dims : List String) (vs : List TVar) : Option String :=
-  match k with
-  | .generic => timeCoordinateGeneric vs
-  | k =>
-    match timeCoordinateNamed (shocTimeName k) vs with
-    | some n => some n
-    | none => if dims.contains (shocTimeName k) then some (shocTimeName k) else none
 
 /-- `Convention.to_netcdf` up to the attribute rewrite: which variable of the saved file gets its
 units rewritten.  `none` = nothing is rewritten, `some (some n)` = variable `n`,
